@@ -23,6 +23,8 @@ pub enum Case {
     },
     /// corpus file selector (C14)
     Corpus { file: u32 },
+    /// corpus file by position (C14 enumerates every file)
+    CorpusAt { index: usize },
     /// `erg --py-command P run probe.er` must run under P (C13)
     PyCommand { ver: String },
 }
@@ -45,6 +47,14 @@ fn source(case: &Case) -> Option<(String, Vec<String>)> {
             }
             let s = c[idx(*file, c.len())].clone();
             // linked modules bring code objects whose lines belong to other files
+            if s.contains("import ") || s.contains("import\"") {
+                return None;
+            }
+            Some((s, vec!["corpus".into()]))
+        }
+        Case::CorpusAt { index } => {
+            let c = super::c08::corpus();
+            let s = c.get(*index)?.clone();
             if s.contains("import ") || s.contains("import\"") {
                 return None;
             }
@@ -235,6 +245,9 @@ impl Property for C14 {
         Policy::Discard
     }
     fn setup(&self) {}
+    fn fixed_cases(&self, _tier: Tier) -> Vec<Case> {
+        (0..super::c08::corpus().len()).map(|index| Case::CorpusAt { index }).collect()
+    }
     fn render(&self, case: &Case) -> Value {
         match source(case) {
             Some((s, _)) => json!(vkit::util::truncate(&s, 3000)),
@@ -297,7 +310,10 @@ impl Property for C14 {
         }
         if !line_vers.is_empty() {
             // one root cause whatever instruction is hit first: keyed by the set of targets
-            return Outcome::fail(pin(format!("instruction-without-valid-line on target(s) {}", line_vers.join(","))), json!({"erg": vkit::util::truncate(&src, 2500), "detail": line_detail}));
+            // 3.10 and 3.11 share one root cause (pre-3.10 lnotab written for every target): which of
+            // the two shows an uncovered instruction depends on the program
+            let set = if line_vers.iter().all(|v| v == "3.10" || v == "3.11") { "3.10/3.11".to_string() } else { line_vers.join(",") };
+            return Outcome::fail(pin(format!("instruction-without-valid-line on target(s) {set}")), json!({"erg": vkit::util::truncate(&src, 2500), "detail": line_detail}));
         }
         let mut o = Outcome::pass(jumps >= 1 && calls >= 1);
         o.evals = objs.max(1);
